@@ -16,6 +16,7 @@ package decode
 // in the event buffer lies below the buffer's length - insane-json decodes from it).
 
 //@ func (*Plugin).decodeJson
+//@   option check-nil yes
 //@   option allow-exit yes
 //@   requires p.config != nil
 //@   ensures len(result) >= len(buf)
